@@ -26,18 +26,17 @@ import (
 	"errors"
 	"fmt"
 	"io"
+	"log/slog"
 	"math/rand"
 	"net/http"
 	"net/http/httptest"
 	"os"
-	"path/filepath"
 	"runtime"
 	"sort"
 	"strconv"
 	"strings"
 	"sync"
 	"sync/atomic"
-	"syscall"
 	"testing"
 	"time"
 
@@ -95,32 +94,22 @@ func echoBody(method, v string) []byte {
 	return buf.Bytes()
 }
 
-// race detector reports go to fd 2; keep them in a file so a report can be quoted.
-var (
-	stderrPath string
-	raceSeen   atomic.Bool
-)
-
-func captureStderr() {
-	dir := os.Getenv("VERIF_SCRATCH")
-	if dir == "" {
-		dir = os.TempDir()
-	}
-	p := filepath.Join(dir, fmt.Sprintf("servestart-stderr-%d.log", os.Getpid()))
-	f, err := os.Create(p)
-	if err != nil {
-		return
-	}
-	if err := syscall.Dup3(int(f.Fd()), 2, 0); err == nil {
-		stderrPath = p
-	}
-}
+// The race detector writes its reports to GORACE's log_path (module.json sets it;
+// the runtime appends ".<pid>") so that a report can be quoted in the verdict.
+var raceSeen atomic.Bool
 
 func raceExcerpt() string {
-	if stderrPath == "" {
-		return "race detector report on the driver's stderr"
+	path := ""
+	for _, f := range strings.Fields(os.Getenv("GORACE")) {
+		if strings.HasPrefix(f, "log_path=") {
+			path = strings.TrimPrefix(f, "log_path=") + "." + strconv.Itoa(os.Getpid())
+		}
 	}
-	b, _ := os.ReadFile(stderrPath)
+	if path == "" {
+		return "race detector report (see the driver's stderr)"
+	}
+	b, _ := os.ReadFile(path)
+	os.Remove(path)
 	s := string(b)
 	i := strings.Index(s, "WARNING: DATA RACE")
 	if i < 0 {
@@ -788,7 +777,7 @@ func (s *stepper) releaseFrom(g *reqG, gate, outcome string) error {
 }
 
 func TestReplay(t *testing.T) {
-	captureStderr()
+	slog.SetDefault(slog.New(slog.NewTextHandler(io.Discard, nil))) // the injected hook failures are logged at error level
 	replay.Run(t, "ServeStart", func() replay.Stepper { return &stepper{t: t} })
 }
 
@@ -1168,9 +1157,9 @@ func stressRound(seed int64, n, k int, refHash *string) stressTotals {
 func (s *stepper) stress(st replay.Step) (replay.Obs, error) {
 	n := replay.Int(st.Args, "n")
 	k := replay.Int(st.Args, "fails")
-	rounds := 3
+	rounds, budget := 3, 90*time.Second
 	if os.Getenv("VERIF_TIER") == "thorough" {
-		rounds = 40
+		rounds, budget = 16, 300*time.Second
 	}
 	if v, err := strconv.Atoi(os.Getenv("VERIF_STRESS_ROUNDS")); err == nil && v > 0 {
 		rounds = v
@@ -1180,7 +1169,10 @@ func (s *stepper) stress(st replay.Step) (replay.Obs, error) {
 	var notes []string
 	var refHash string
 	total := 0
-	for r := 0; r < rounds; r++ {
+	t0 := time.Now()
+	done := 0
+	for r := 0; r < rounds && (r == 0 || time.Since(t0) < budget); r++ {
+		done++
 		tot := stressRound(s.rng.Int63n(1<<40), n, k, &refHash)
 		total += tot.requests
 		// report the first round that disagrees
@@ -1217,7 +1209,7 @@ func (s *stepper) stress(st replay.Step) (replay.Obs, error) {
 		obs["__note__"] = strings.Join(notes, "; ")
 	}
 	if obs["__note__"] == nil {
-		obs["__note__"] = fmt.Sprintf("%d rounds, %d requests", rounds, total)
+		obs["__note__"] = fmt.Sprintf("%d rounds, %d requests", done, total)
 	}
 	return obs, nil
 }
